@@ -9,14 +9,14 @@ import (
 // G2 — trivia renderer: one token sequence under many layouts.
 
 const (
-	LayCanon   = iota // one blank in every free gap
-	LayMinimal        // nothing wherever two tokens cannot fuse, one blank otherwise
-	LayLF             // random blanks and LF
-	LayCRLF           // random blanks and CRLF
-	LayCR             // random blanks and lone CR (the scanner rejects lone CR between PHP tokens: known finding)
-	LayComments       // comment-heavy, all comment styles
-	LayMixed          // everything mixed, all three line terminators except lone CR
-	LayMixedCR        // everything mixed including lone CR
+	LayCanon    = iota // one blank in every free gap
+	LayMinimal         // nothing wherever two tokens cannot fuse, one blank otherwise
+	LayLF              // random blanks and LF
+	LayCRLF            // random blanks and CRLF
+	LayCR              // random blanks and lone CR (the scanner rejects lone CR between PHP tokens: known finding)
+	LayComments        // comment-heavy, all comment styles
+	LayMixed           // everything mixed, all three line terminators except lone CR
+	LayMixedCR         // everything mixed including lone CR
 	NumLayouts
 )
 
